@@ -37,6 +37,36 @@ def term_at(family, which, call, hyps):
     return B.bs_term('bs_%s_%s' % (family, which), hyps, with_m=wm, strike=st, call=cl)[0]
 
 
+def term_at_mixed(family, which, call, hyps):
+    """the same element term, but taken from a TWO-element batch whose other element is alive (t1 > 0, v1 > 0): a guard that looks at the
+    whole batch (`.any()`, `.all()`, a Python `if` on a reduced tensor) instead of element-wise shows up here"""
+    import torch
+    import pfhedge.nn.functional as Fm
+    from pfv.torchlib.tensor import Tensor, inline_leaves
+    from pfv.proxies import SReal
+    wm, st, cl = sig(family, which, call)
+    x1, t1, v1, m1 = tm.var('x1'), tm.var('t1'), tm.var('v1'), tm.var('m1')
+
+    def two(a, b):
+        return Tensor.fresh(lambda idx: tm.ite(tm.eq(idx[0], tm.IZERO), a, b), (2,), torch.float64)
+
+    def build():
+        kw = dict(log_moneyness=two(x, x1), time_to_maturity=two(t, t1), volatility=two(v, v1))
+        if wm:
+            kw['max_log_moneyness'] = two(m, m1)
+        if st:
+            kw['strike'] = SReal(K)
+        if cl is not None:
+            kw['call'] = cl
+        return kw
+    live = [tm.gt(t1, tm.ZERO), tm.gt(v1, tm.ZERO), tm.le(x1, m1), tm.lt(m1, tm.ZERO)]
+    paths = B.run_real(getattr(Fm, 'bs_%s_%s' % (family, which)), build, hyps + live)
+    rets = [p for p in paths if p.outcome() == 'returns']
+    if len(paths) != 1 or len(rets) != 1:
+        raise Unsupported('mixed batch: expected one returning path, got %s' % [(p.outcome(), str(p.exception)[:100]) for p in paths])
+    return inline_leaves(rets[0].result.at((tm.IZERO,)), rets[0].ctx), live
+
+
 def call_expr(family, which, call):
     wm, st, cl = sig(family, which, call)
     args = 'x, m, t, v' if wm else 'x, t, v'
@@ -48,7 +78,7 @@ def call_expr(family, which, call):
     return 'F.bs_%s_%s(%s%s)' % (family, which, args, kw)
 
 
-def total_ob(family, which, call, regime, xcase, expected_fn, mcase=None):
+def total_ob(family, which, call, regime, xcase, expected_fn, mcase=None, mixed=False):
     """regime: 't=0' | 'v=0' | 't=0,v=0'."""
     rh = {'t=0': [tm.eq(t, tm.ZERO), tm.gt(v, tm.ZERO)], 'v=0': [tm.eq(v, tm.ZERO), tm.gt(t, tm.ZERO)],
           't=0,v=0': [tm.eq(t, tm.ZERO), tm.eq(v, tm.ZERO)]}[regime]
@@ -56,7 +86,7 @@ def total_ob(family, which, call, regime, xcase, expected_fn, mcase=None):
     mh = {None: [], 'm>=0': [tm.ge(m, tm.ZERO), tm.le(x, m)], 'm<0': [tm.lt(m, tm.ZERO), tm.le(x, m)]}[mcase]
     hyps = [tm.gt(K, tm.ZERO)] + rh + xh + mh
     tag = ','.join([s for s in (('call' if call else 'put') if call is not None else None, regime, xcase, mcase) if s])
-    oid = 'C18/bs_%s_%s/total[%s]' % (family, which, tag)
+    oid = 'C18/bs_%s_%s/total[%s%s]' % (family, which, tag, ',in a batch with a live element' if mixed else '')
     point = {'x': {'x>0': 0.3, 'x<0': -0.3, 'x=0': 0.0}[xcase], 't': 0.0 if 't=0' in regime else 0.5, 'v': 0.0 if 'v=0' in regime else 0.2, 'K': 1.3}
     if mcase == 'm>=0':
         point['m'] = max(point['x'], 0.0) + 0.1
@@ -65,12 +95,23 @@ def total_ob(family, which, call, regime, xcase, expected_fn, mcase=None):
         point['m'] = -0.1
     snippet = ('import pfhedge.nn.functional as F\nx=T(W["x"]); t=T(W["t"]); v=T(W["v"]); K=W["K"]; m=T(W.get("m",0.0))\n'
                'result={"got": %s}' % call_expr(family, which, call))
+    if mixed:
+        snippet = ('import pfhedge.nn.functional as F\nx=T([W["x"], -0.2]); t=T([W["t"], 0.5]); v=T([W["v"], 0.3]); K=W["K"]; m=T([W.get("m",0.0), -0.1])\n'
+                   'result={"got": (%s)[0]}' % call_expr(family, which, call))
 
     def check():
         t0 = time.time()
-        term = term_at(family, which, call, hyps)
+        hyps_ = hyps
         try:
-            cs = extreal.cases(term, hyps)
+            if mixed:
+                term, live = term_at_mixed(family, which, call, hyps)
+                hyps_ = hyps + live
+            else:
+                term = term_at(family, which, call, hyps)
+        except Unsupported as e:
+            return Verdict('unknown', 'engine', time.time() - t0, str(e))
+        try:
+            cs = extreal.cases(term, hyps_)
         except extreal.Split as s:
             return Verdict('unknown', 'extreal', time.time() - t0, 'sign case analysis did not close: %s' % tm.show(s.cond))
         expected = expected_fn() if expected_fn else None
@@ -161,6 +202,20 @@ def build(tier, seed):
                 obs.append(total_ob('american_binary', 'price', None, regime, xc, zero, mcase='m<0'))
                 obs.append(total_ob('american_binary', 'delta', None, regime, xc, zero, mcase='m<0'))
                 obs.append(total_ob('lookback', 'price', None, regime, xc, zero, mcase='m<0'))
+    # element-wise totality: the same cases with the degenerate element sitting in a batch next to a live one
+    # (a guard that looks at the whole batch instead of element-wise is decided here; x<0 cases, where nothing is knocked in)
+    mixed = []
+    for regime in ('t=0', 'v=0', 't=0,v=0'):
+        for call in (True, False):
+            intrinsic = (lambda call=call: tm.tmax(tm.sub(S, K), tm.ZERO) if call else tm.tmax(tm.sub(K, S), tm.ZERO))
+            mixed.append(total_ob('european', 'price', call, regime, 'x<0', intrinsic, mixed=True))
+            mixed.append(total_ob('european', 'delta', call, regime, 'x<0', (lambda call=call: tm.const(0.0) if call else tm.const(-1.0)), mixed=True))
+            mixed.append(total_ob('european_binary', 'price', call, regime, 'x<0', (lambda call=call: tm.const(0.0 if call else 1.0)), mixed=True))
+            mixed.append(total_ob('european_binary', 'delta', call, regime, 'x<0', zero, mixed=True))
+        mixed.append(total_ob('american_binary', 'price', None, regime, 'x<0', zero, mcase='m<0', mixed=True))
+        mixed.append(total_ob('american_binary', 'delta', None, regime, 'x<0', zero, mcase='m<0', mixed=True))
+        mixed.append(total_ob('lookback', 'price', None, regime, 'x<0', zero, mcase='m<0', mixed=True))
+    obs += mixed
     from contracts import c08
     for family, spec in c08.FAMILIES.items():
         for which in ('price', 'delta', 'gamma', 'vega', 'theta'):
